@@ -466,7 +466,7 @@ theorem runBody_graph (ho : StrictOrder lt) (f : Node → St → Res × St) (hf 
     intro hcb s g hs hi hidx hlen
     simp only [CallsBelow] at hcb
     simp only [runBody]
-    have hsg := sameG_noteRead s a r
+    have hsg := sameG_noteRead s (a && (env.refs r).isSome) r
     obtain ⟨a1, a2, a3, a4⟩ := ih _ (hcb _) _ (GI.of_sameG hsg g) (hsg.stack.trans hs) (hsg.idx.trans hi) hidx hlen
     exact ⟨a1, a2, a3, (Ext.of_data hsg.data).trans a4⟩
   | call m k ih =>
